@@ -92,6 +92,8 @@ type FakeTransport struct {
 	NoCut    func(pending []byte, k int) bool // true: delivering exactly k bytes is not allowed (mid escape sequence)
 	NextEnd  func(off int) int                // when set: a read never crosses the next message end after stream offset off
 
+	OwnBuf           bool // true: every Read returns a fresh slice (default: one buffer is reused for all reads)
+	rbuf             []byte
 	StallAt          int // -1: never; else the device goes silent once this many bytes were delivered
 	LossAt           int // -1: never; else the connection is lost once this many bytes were delivered
 	Loss             LossKind
@@ -182,7 +184,20 @@ func (t *FakeTransport) Read(n int) ([]byte, error) {
 	t.req = r
 	t.E.Poke()
 	resp := <-r.reply
-	return resp.b, resp.err
+	if t.OwnBuf || len(resp.b) == 0 {
+		return resp.b, resp.err
+	}
+	// like a transport that reads into one buffer of its own and hands out a window of it (nothing in
+	// transport.Implementation forbids that): what was returned by the previous Read is overwritten now
+	if cap(t.rbuf) < len(resp.b) {
+		t.rbuf = make([]byte, len(resp.b), 2*len(resp.b))
+	}
+	for i := range t.rbuf[:cap(t.rbuf)] {
+		t.rbuf[:cap(t.rbuf)][i] = '~'
+	}
+	t.rbuf = t.rbuf[:len(resp.b)]
+	copy(t.rbuf, resp.b)
+	return t.rbuf, resp.err
 }
 
 // Write implements transport.Implementation.
